@@ -9,7 +9,7 @@ from __future__ import annotations
 import ast
 
 from mlmverif import cfg as cfgm
-from mlmverif.core import (cnorm, AnalysisError, Ctx, FuncInfo, is_self_attr, kwarg,
+from mlmverif.core import (cnorm, parent_map, AnalysisError, Ctx, FuncInfo, is_self_attr, kwarg,
                            unparse, walk_no_nested)
 
 EXPLANATION = (
@@ -36,7 +36,7 @@ FU = 'utils.func_utils'
 
 
 def run(ctx: Ctx):
-  for r in (r1, r2, r3, r4, r5, r6, r7, r8, r9, r10):
+  for r in (r1, r2, r3, r4, r5, r6, r7, r8, r9, r10, r11):
     ctx.guard(r)
 
 
@@ -662,11 +662,75 @@ def r10(ctx: Ctx):
   ctx.floor(rule, 1, n)
 
 
+def r11(ctx: Ctx):
+  rule = 'R-C17-11'
+  ctx.rule(rule, '"materialising a traced expression ... yields the value the eager expression yields" — also when lazy and'
+           ' plain arguments meet in the result cache: an uncached lazy object hashes like the value it wraps, so dict'
+           ' lookups and tuple comparisons call its __eq__ with PLAIN values. Every __eq__ of the lazy classes therefore'
+           ' tests the operand\'s type (isinstance) before it reads an attribute of it; the sibling implementations agree'
+           ' (LazyFn.__eq__ checks, LazyObject.__eq__ must as well). Otherwise `f(3)` cached, then `f(trace(3))`: the cache'
+           ' lookup raises AttributeError instead of evaluating')
+  mi = ctx.repo.module(LF)
+  n = 0
+  for ci in mi.classes.values():
+    fi = ci.methods.get('__eq__')
+    if fi is None or len(fi.params()) < 2:
+      continue
+    other = fi.params()[1]
+    g = cfgm.cfg_of(fi.node)
+
+    def gen(nd, lab):
+      if nd.kind != 'cond':
+        return ()
+      return [('isinst',) for c in cfgm.truthy_conjuncts(nd.ast, lab)
+              if isinstance(c, ast.Call) and unparse(c.func) == 'isinstance' and c.args and unparse(c.args[0]) == other]
+
+    facts = cfgm.must_facts(g, gen, lambda nd, fact: False)
+    n += 1
+    bad = None
+    for nd in g.nodes:
+      if nd.ast is None or nd.kind not in ('stmt', 'cond'):
+        continue
+      for top in [nd.ast]:
+        pm = parent_map(top)
+        for x in ast.walk(top):
+          if not (isinstance(x, ast.Attribute) and isinstance(x.value, ast.Name) and x.value.id == other):
+            continue
+          if ('isinst',) in facts.get(nd, ()):
+            continue
+          # guarded inside the expression: `isinstance(other, T) and (... other.attr ...)`
+          q, guarded = x, False
+          while q in pm:
+            par = pm[q]
+            if isinstance(par, ast.BoolOp) and isinstance(par.op, ast.And):
+              idx = next(i for i, v in enumerate(par.values) if any(y is q for y in ast.walk(v)))
+              if any(isinstance(v, ast.Call) and unparse(v.func) == 'isinstance' and v.args and unparse(v.args[0]) == other
+                     for v in par.values[:idx]):
+                guarded = True
+            q = par
+          if not guarded:
+            bad = bad or x
+    what = f'{ci.name}.__eq__: the operand\'s type is tested before its attributes are read'
+    if bad is None:
+      ctx.ok(rule, fi, what, fi.node)
+    else:
+      ctx.fail(rule, fi, what,
+               f'{ci.name}.__eq__ reads `{unparse(bad)}` without an isinstance test of `{other}`: a lazy object hashes like the'
+               ' value it wraps, so it is compared with plain values in dict lookups and tuple comparisons (the result cache'
+               ' compares argument tuples) — that comparison raises AttributeError and the lazy call fails where the eager'
+               ' call returns a value', node=bad)
+  ctx.floor(rule, 2, n)
+
+
 from mlmverif.selfcheck import B, OK  # noqa: E402
 
 _L = 'chainables/lazy_fns.py'
 _F = 'utils/func_utils.py'
 VARIANTS = [
+    B('revert-lazy-object-eq-without-type-check', 'chainables/lazy_fns.py',
+      "    if not isinstance(other, LazyObject):\n      return False\n    if self.id == other.id:", "    if self.id == other.id:", 'R-C17-11'),
+    OK('lazy-object-eq-returns-notimplemented', 'chainables/lazy_fns.py',
+       "    if not isinstance(other, LazyObject):\n      return False\n    if self.id == other.id:", "    if not isinstance(other, LazyObject):\n      return NotImplemented\n    if self.id == other.id:"),
     B('getattr-refuses-every-underscore-name', 'chainables/lazy_fns.py',
       "    if name.startswith('__') and name.endswith('__'):\n      raise AttributeError", "    if name.startswith('_'):\n      raise AttributeError(name)", 'R-C17-10'),
     OK('getattr-dunder-guard-nested', 'chainables/lazy_fns.py',
